@@ -109,6 +109,7 @@ class State:
         self.prev_layout = []   # earlier (layout, NtE)
         self.prev_raw = []      # earlier raw matrices
         self.error = None      # (event, exception) when an event itself raised
+        self.rejected = None   # (what, raised?, object unchanged?) of the last invalid call
 
 
 def apply_event(st, ev):
@@ -162,6 +163,31 @@ def apply_event(st, ev):
         W = W_of(ev[1], st.layout[0])
         o.set_post_filter(None if W is None else [w.copy() for w in W])
         st.W = W
+    elif kind == "bad":
+        # a call the library must REJECT; the object has to stay exactly as it was
+        before = bfs.digest(vars(o), 12)
+        Nr, Nt = st.layout
+        other = "B" if (Nr, Nt) == LAYOUTS["A"] else "A"
+        oNr, oNt = LAYOUTS[other]
+        extra = (sum(st.NtE) if st.ext else 0)
+        raised = None
+        try:
+            if ev[1] == "init_wrong_shape":
+                M = M_of("M2", (sum(oNr) + 1, sum(oNt) + extra))
+                args = (M, np.array(oNr), np.array(oNt), K)
+            elif ev[1] == "init_K_mismatch":
+                M = M_of("M2", (sum(oNr), sum(oNt) + extra))
+                args = (M, np.array(oNr), np.array(oNt), K + 1)
+            if ev[1].startswith("init"):
+                if st.ext:
+                    o.init_from_channel_matrix(*args, st.NtE if len(st.NtE) > 1 else int(st.NtE[0]))
+                else:
+                    o.init_from_channel_matrix(*args)
+            elif ev[1] == "negative_noise_var":
+                o.noise_var = -0.5
+        except (ValueError, AssertionError) as e:
+            raised = e
+        st.rejected = (ev[1], raised is not None, bfs.digest(vars(o), 12) == before)
     elif kind == "rd":
         read_view(st, ev[1])
     elif kind == "tx":
@@ -410,7 +436,8 @@ def alphabet(ext, tier):
         reads += [("rd", "big_H_no_ext_int"), ("rd", "H_no_ext_int"), ("rd", "Hk_without_ext_int")]
     if tier == "thorough":
         muts += [("pl", "P3"), ("nv", 1e-13)]
-    tx = [("tx", "cd"), ("tx", "ccd")]
+    tx = [("tx", "cd"), ("tx", "ccd"), ("bad", "init_wrong_shape"), ("bad", "init_K_mismatch"),
+          ("bad", "negative_noise_var")]
     return ev, muts, reads, tx
 
 
@@ -452,6 +479,15 @@ def run_bfs(chk, ext, depth, inits, tier, k=2):
                       "exception:" + type(e).__name__), case,
                      observed="%s: %s" % (type(e).__name__, e), expected="event completes")
             return
+        if hist and hist[-1][0] == "bad" and st.rejected is not None:
+            what, raised, same = st.rejected
+            chk.count("eval_rejected_calls")
+            if not raised:
+                chk.fail((cls, "invalid_call_accepted", what), case, observed="no exception",
+                         expected="ValueError / AssertionError")
+            elif not same:
+                chk.fail((cls, "rejected_call_changed_the_object", what), case,
+                         observed="object digest differs after the rejected call", expected="object untouched")
         with seams.patched((MU, "randn_c_RS", st.rng)):
             with chk.guard((cls, "invariant"), case):
                 check_views(chk, st, hist, cls)
